@@ -77,13 +77,13 @@ class Project(_directory.Level):
         """
         project = package.manifest.name
         release = package.manifest.version
+        if project != self._key:  # before the listing - it is the manifest's project that gets pushed to
+            raise forml.InvalidError('Project key mismatch')
         try:
             previous = self.list().last
         except (_directory.Level.Invalid, _directory.Level.Listing.Empty):
             LOGGER.debug('No previous release for %s-%s', project, release)
         else:
-            if project != self.key:
-                raise forml.InvalidError('Project key mismatch')
             if not release > previous:
                 raise _directory.Level.Invalid(f'{project}-{release} not an increment from existing {previous}')
         self.registry.push(package)
